@@ -1,14 +1,1 @@
-#[test]
-fn kani_concrete_playback_c27_ipv4_all_addresses_7730926389633453767() {
-    let concrete_vals: Vec<Vec<u8>> = vec![
-        // 100
-        vec![100],
-        // 128
-        vec![128],
-        // 0
-        vec![0],
-        // 0
-        vec![0],
-    ];
-    kani::concrete_playback_run(concrete_vals, crate::c27::c27_ipv4_all_addresses);
-}
+// rewritten by /verif/lib/replay.py during a replay; empty otherwise
